@@ -249,15 +249,84 @@ pub fn check_ops(case: &OpsCase, t: &mut Tally) -> CaseResult {
     Ok(())
 }
 
+/// Rejected calls inside an ISOLATED transaction that ends empty (every op rejected, or rolled back): the document
+/// must be as before, including who it is: get_actor() and the authorship / sequence of the next local change.
+pub fn check_isolated(case: &OpsCase, t: &mut Tally) -> CaseResult {
+    let (p, calls, seed) = case;
+    let mut it = run_program(p, default_opts())?;
+    let objs = it.objs.clone();
+    let mut rng = Lcg(*seed);
+    // the derived isolation actor sorts below actors 1.. of the harness and above actor 0: use the last replica
+    let r = it.reps.len() - 1;
+    it.commit(r);
+    if it.reps[r].isolated.is_some() {
+        return Ok(());
+    }
+    let actor0 = it.reps[r].doc.get_actor().clone();
+    let own_before = it.reps[r].doc.get_changes(&[]).iter().filter(|c| c.actor_id() == &actor0).count();
+    let known: Vec<Vec<automerge::ChangeHash>> = it.heads.clone().into_iter().filter(|h| it.knows_heads(r, h)).collect();
+    let at: Vec<automerge::ChangeHash> = if known.is_empty() || rng.below(3) == 0 { vec![] } else { known[rng.below(known.len())].clone() };
+    let before = snapshot(it.reps[r].doc.document())?;
+    catch("isolate", || it.reps[r].doc.isolate(&at))?;
+    let mut rejected = 0;
+    for (k, a, b, c, n) in calls {
+        let pending = it.reps[r].doc.pending_ops();
+        let res = catch("invalid call (isolated)", || invalid_call(&mut it.reps[r].doc, &objs, *k, *a, *b, *c, *n))?;
+        match res {
+            Some((_, Err(_))) => rejected += 1,
+            Some((what, Ok(()))) => {
+                // an accepted call: undo it so that the isolated transaction still ends empty
+                let _ = what;
+                let _ = catch("rollback", || it.reps[r].doc.rollback())?;
+            }
+            None => {}
+        }
+        let _ = pending;
+        t.extra_evals += 1;
+    }
+    match rng.below(3) {
+        0 => {
+            let _ = catch("commit (empty isolated transaction)", || it.reps[r].doc.commit())?;
+        }
+        1 => {
+            let _ = catch("get_heads", || it.reps[r].doc.get_heads())?;
+        }
+        _ => {}
+    }
+    catch("integrate", || it.reps[r].doc.integrate())?;
+    let actor1 = catch("get_actor", || it.reps[r].doc.get_actor().clone())?;
+    ensure!(actor1 == actor0, "C06:isolated-rejected-ops:actor-changed", "after an isolated transaction in which every call was rejected or rolled back, get_actor() is {} (was {})", actor1.to_hex_string(), actor0.to_hex_string());
+    let after = snapshot(it.reps[r].doc.document())?;
+    same(&before, &after, "isolated transaction that ended empty")?;
+    // the next local change is authored by the same actor with the next sequence number
+    catch("put", || it.reps[r].doc.put(ROOT, "after-isolation", 1))?.map_err(|e| Failure::new("C06:isolated-rejected-ops:edit-error", e.to_string()))?;
+    catch("commit", || it.reps[r].doc.commit())?;
+    let own: Vec<automerge::Change> = it.reps[r].doc.get_changes(&[]).into_iter().filter(|c| c.actor_id() == &actor0).collect();
+    ensure!(own.len() == own_before + 1, "C06:isolated-rejected-ops:next-change-authorship", "the edit after the isolated transaction is not attributed to the document's actor {}: it has {} changes by it, expected {}", actor0.to_hex_string(), own.len(), own_before + 1);
+    // and every other replica can still merge it
+    for o in 0..it.reps.len() {
+        if o != r {
+            let mut src = it.reps[r].doc.clone();
+            catch("merge", || it.reps[o].doc.merge(&mut src))?.map_err(|e| Failure::new("C06:isolated-rejected-ops:merge-error", e.to_string()))?;
+        }
+    }
+    t.class(if at.is_empty() { "isolated_at_root" } else { "isolated_at_recorded_heads" });
+    if rejected > 0 && own_before > 0 {
+        t.nontrivial();
+    }
+    Ok(())
+}
+
 pub fn property(_ctx: &Ctx) -> Property {
     Property {
         id: "C06",
         level: "exploration",
-        rule: "(dupseq) the C38 scenario: a generated schedule offers two conflicting (actor, seq) branches to a target through apply_changes (single/batch/mixed with good changes), load_incremental, merge, sync, load; whenever a call returns Err the snapshot (heads, full observation, save_with_options(retain_orphans) bytes, get_missing_deps) must be unchanged, and a twin that skips every failing call must end with equal heads/state/queue. (ops) generated invalid transaction calls (index out of range, wrong key kind, unknown object, increment of a non-counter, marks/splices past the end...) inside a non-empty open transaction: Err => observation and pending_ops unchanged; bit-flipped/truncated incremental bytes on which load_incremental returns Err => snapshot unchanged. Every program ends with load(save()) equal. Non-trivial = a call returned Err on a document with history (ops: with pending ops); distinct by case.",
+        rule: "(dupseq) the C38 scenario: a generated schedule offers two conflicting (actor, seq) branches to a target through apply_changes (single/batch/mixed with good changes), load_incremental, merge, sync, load; whenever a call returns Err the snapshot (heads, full observation, save_with_options(retain_orphans) bytes, get_missing_deps) must be unchanged, and a twin that skips every failing call must end with equal heads/state/queue. (ops) generated invalid transaction calls (index out of range, wrong key kind, unknown object, increment of a non-counter, marks/splices past the end...) inside a non-empty open transaction: Err => observation and pending_ops unchanged; bit-flipped/truncated incremental bytes on which load_incremental returns Err => snapshot unchanged. (isolated-ops) the same invalid calls inside an isolated transaction (isolate at the root or at recorded heads) that ends empty, then integrate: snapshot and get_actor() unchanged, the next local change is authored by the document's actor with the next seq and merges everywhere. Every program ends with load(save()) equal. Non-trivial = a call returned Err on a document with history (ops: with pending ops); distinct by case.",
         assumptions: &["load_incremental of corrupt bytes that returns Ok (partial load) is not constrained here (see C13/C14)"],
         subs: vec![
             sub::<Case, _, _>("dupseq", 4000, 100000, |c| strategy(c.thorough()), check_dup),
             sub::<OpsCase, _, _>("ops", 3200, 80000, |c| (program_strategy(HISTORY, if c.thorough() { 60 } else { 25 }, 2, 4), prop::collection::vec((any::<u8>(), any::<u16>(), any::<u16>(), any::<u16>(), -3i64..9), 1..10), any::<u64>()), check_ops),
+            sub::<OpsCase, _, _>("isolated-ops", 2400, 60000, |c| (program_strategy(HISTORY, if c.thorough() { 60 } else { 25 }, 3, 4), prop::collection::vec((any::<u8>(), any::<u16>(), any::<u16>(), any::<u16>(), -3i64..9), 1..6), any::<u64>()), check_isolated),
         ],
     }
 }
